@@ -33,7 +33,7 @@ RULE = (
     "descriptors vs the three runtime tables, all rows; (route) 1-12 frames of declared ids with generated valid payloads, interleaved with repeated undeclared ids (which must reach nobody), "
     "on plaintext|noise sessions with a subscriber per class, plus the reverse direction through send_message; (sweep) "
     "sequences of 1-8 public API calls (argument variant 0-5 per recipe, negotiated API version from {1.0,1.2,1.4,1.10}, "
-    "login on/off, returned unsubscribe handles invoked, optionally after the device sent one message of every server-originated type so that handler-driven writes are covered) with a device that answers every request, a keepalive tick and a "
+    "login on/off, returned unsubscribe handles invoked, optionally after the device sent one message of every server-originated type so that handler-driven writes are covered) with a device that answers every request (or none, so that every awaitable call runs into its timeout path), a keepalive tick and a "
     "device-initiated ping/time/disconnect request. non-trivial = the case exchanged at least one message in each "
     "direction after the handshake, or is a table/id case."
 )
@@ -249,7 +249,10 @@ def run_sweep(case: dict) -> CaseResult:
     s = Session(noise=bool(case.get("noise")), login=bool(case.get("login", True)), keepalive=4.0, api=tuple(case.get("api", (1, 10))))
     env = s.env
     env.log_subscriptions = True
-    apisurface.install_responder(env.dev)
+    if not case.get("silent"):
+        apisurface.install_responder(env.dev)
+    else:
+        env.dev.auto = {1, 3, 5, 7}  # the device answers nothing but hello/connect/disconnect/ping: every request times out
     called: list[str] = []
 
     async def then(sess: Session):
@@ -413,7 +416,7 @@ def _sweep(draw, tier):
         "kind": "sweep", "noise": draw(st.integers(0, 3)) == 0, "login": draw(st.booleans()),
         "api": draw(st.sampled_from([[1, 0], [1, 2], [1, 4], [1, 10]])), "calls": calls,
         "unsub": draw(st.booleans()), "peer": draw(st.sampled_from([None, "ping", "time"])), "stimulate": draw(st.sampled_from([None, None, True, "then_wait"])),
-        "tick": draw(st.integers(0, 3)) == 0, "end": draw(st.sampled_from(["disconnect", "force", "peer"])),
+        "tick": draw(st.integers(0, 3)) == 0, "end": draw(st.sampled_from(["disconnect", "force", "peer"])), "silent": draw(st.integers(0, 4)) == 0,
     }
 
 
@@ -443,6 +446,9 @@ def enumerated(tier):
             yield {"kind": "sweep", "noise": v == 5, "login": True, "api": [1, 10], "calls": [[m, v] for m in subs], "unsub": True, "peer": None, "tick": False, "end": "disconnect", "stimulate": stim}
             for m in subs:
                 yield {"kind": "sweep", "noise": False, "login": True, "api": [1, 10], "calls": [[m, v]], "unsub": v % 2 == 0, "peer": None, "tick": False, "end": "force", "stimulate": stim}
+    for m in _api_methods():
+        # error paths: the device never answers, awaitable calls end by their timeout
+        yield {"kind": "sweep", "noise": False, "login": True, "api": [1, 10], "calls": [[m, 1]], "unsub": True, "peer": None, "tick": False, "end": "disconnect", "silent": True}
     for m in _api_methods():
         for v in range(6):
             yield {"kind": "sweep", "noise": v == 5, "login": v != 4, "api": [[1, 10], [1, 0], [1, 2], [1, 4], [1, 10], [1, 10]][v], "calls": [[m, v]],
